@@ -418,6 +418,8 @@ def _get_ops(H):
     for o in sorted(H.ops, key=lambda o: (o["thread"], o["k"])):
         name = o["op"][0]
         if name == "get":
+            if o["outcome"] and o["outcome"][0] == "raise":
+                continue          # the call failed: it configured nothing (the thread's next submit obtains the singleton anew)
             out.append((o["start"], o.get("end"), o["op"][1]["max_workers"]))
             seen_get.add(o["thread"])
         elif name in ("submit", "hold", "map", "probe") and o["thread"] not in seen_get:
